@@ -19,7 +19,8 @@ ASSUMPTIONS = [
     '(FIBDemux catches KeyError/IndexError/ValueError raised *inside* a downstream put as if its own lookup had failed)',
     'a forwarding-table entry naming a port outside the output list is sent to the default output (IndexError is handled); '
     'negative ports index from the end as Python lists do (outside the property: modelled, no oracle)',
-    'Hub element ids are compared with ==; endpoints sharing an element id are all treated as the sender',
+    'Hub element ids are compared with ==; endpoints sharing an element id are all treated as the sender; ids are strings, ints (as fat-tree hosts have) or tuples, '
+    'the endpoints are real Device subclasses and packet.src carries the id value the harness chose (the oracle decides who the sender is from that value, not from what the endpoint reports)',
     '"header fields" of a packet = its attributes time, size, packet_id, realtime, src, dst, flow_id, payload, color, ack, '
     'current_time (rebinding an attribute) and the tables perhop_time / priorities (in-place writes); a copy is taken after the '
     'original was handed to the first output, so it inherits the stamps made until then',
@@ -198,6 +199,7 @@ def gen_dispatch(rng, i):
         n = rng.randint(0, 6)
         c['nports'] = n
         c['pkts'] = [[p, gen_flow(rng, list(range(n)), n, False), 0] for p in range(npk)]
+        c['peer'] = rng.random() < 0.5          # a second switch of the same class is built and wired in the same Environment
     elif kind == 'fair':
         n = rng.randint(0, 5)
         c['nports'] = n
@@ -214,6 +216,7 @@ def gen_dispatch(rng, i):
         known = [f for f, _ in c['ends']] + [f for f, _ in (c['fib'] or [])]
         c['pkts'] = [[p, gen_flow(rng, known, 10, False), 0] for p in range(npk)]
         pick_falsy(rng, c, [d for _, d in c['ends']])
+        c['peer'] = rng.random() < 0.5
     elif kind == 'hub':
         n = rng.choice([0, 1, 2, 3, 4, 6])
         idpool = n + 2 if rng.random() < 0.6 else max(1, n // 2)      # small pool: endpoints share element ids
@@ -234,6 +237,8 @@ def gen_dispatch(rng, i):
         alle = [e for e, _ in c['eps']] + [a[0] for a in c['adds']]
         c['pkts'] = [[p, 0, rng.choice(alle) if (alle and rng.random() < 0.8) else 99] for p in range(npk)]
         pick_falsy(rng, c, [d for _, d in c['eps']] + [a[1] for a in c['adds']])
+        # element ids need not be strings: FatTree hosts are ints, topology files give tuples
+        c['idtype'] = rng.choice(['str', 'str', 'int', 'int', 'tuple'])
     elif kind == 'splitter':
         c['out1'] = rng.choice([None, 1, 1, 1])
         c['out2'] = rng.choice([None, 2, 2, 1])
@@ -297,6 +302,10 @@ class Failures(list):
         if isinstance(case, dict) and case.get('rival') and case.get('kind') in ('fattree', 'sim'):
             what += (f' [a second FatTree({case["k"]}) object of the same process generated its own flows (seed {case["rival"]["rseed"]}) and forwarding '
                      f'tables after this tree\'s generate_fib and before its tables were read]')
+        if isinstance(case, dict) and case.get('rekey') and case.get('kind') == 'fattree':
+            rk = case['rekey']
+            what += (f' [the flow dict given to generate_fib holds two generate_flows batches renumbered from {rk["bases"]} under keys that are not '
+                     f'the flows\' ids ({rk["keys"]}); a flow\'s id is flow.fid]')
         self.append({'what': what, 'signature': signature, 'case': case, 'trace': trace})
 
 
@@ -336,9 +345,14 @@ def demux_expect(c, flow, outs, default):
     return [default] if default is not None else []
 
 
-def mk_packet(pid, flow, src):
+def ident(idtype, e):
+    """the element id of hub endpoint number `e` (and the `src` of the packets it sends): a string, an int or a tuple"""
+    return e if idtype == 'int' else ('host', e) if idtype == 'tuple' else f'ep{e}'
+
+
+def mk_packet(pid, flow, src, idtype='str'):
     from onl.packet import Packet
-    p = Packet(0.0, 100, pid, src=f'ep{src}', dst='dst0', flow_id=flow, payload=('pl', pid))
+    p = Packet(0.0, 100, pid, src=ident(idtype, src), dst='dst0', flow_id=flow, payload=('pl', pid))
     p.perhop_time['pre'] = 0.5          # a stamp and a priority entry made before the packet reaches the device under test
     p.priorities['pre'] = 3
     return p
@@ -425,11 +439,15 @@ def run_dispatch(c, fails, hist):
 
     fnote = f' [devices {sorted(falsy)} are objects whose truth value is False: registered / attached is not the same as truthy]' if falsy else ''
 
-    def mk_ep(eid, d):
-        return (fc['ep'][d % 2] if d in falsy else Ep)(eid, d, log)
+    idtype = c.get('idtype', 'str')
+
+    def mk_ep(e, d):
+        ep = (fc['ep'][d % 2] if d in falsy else Ep)(ident(idtype, e), d, log)
+        ep.hid = ident(idtype, e)          # the id as the harness chose it (what `ep.element_id` reports is the library's business)
+        return ep
 
     lines = []
-    pkts = [mk_packet(*p) for p in c['pkts']]
+    pkts = [mk_packet(*p, idtype=idtype) for p in c['pkts']]
 
     def put_all(target, after=None):
         for p in pkts:
@@ -545,6 +563,18 @@ def run_dispatch(c, fails, hist):
                 sw.demux.fib = dict((f, p) for f, p in c['fib'])
             for f, x in c['ends']:
                 sw.demux.ends[f] = dev(x)
+        if c.get('peer') and (k == 'simple' or c['server'] in SERVERS):
+            # a second switch of the same class, built and wired AFTER the one under test in the same Environment (devices 800+j behind its
+            # ports): "every packet reaching exactly one output" speaks of the outputs of the switch the packet was handed to
+            with quiet():
+                if k == 'simple':
+                    peer = SimplePacketSwitch(env, max(n, 1), 1e6, 64, element_id='peer')
+                else:
+                    peer = FairPacketSwitch(env, max(n, 1), 1e6, 64, weights, c['server'], element_id='peer')
+                    peer.demux.fib = {f: 0 for f in allf}
+            for j, pt in enumerate(peer.ports):
+                pt.out = dev(800 + j)
+            hist[k + ':with-a-peer-switch'] += 1
         excs = {}
         for p in pkts:
             try:
@@ -585,7 +615,7 @@ def run_dispatch(c, fails, hist):
         decoy = Hub(env)
         for j in range(2):
             decoy.add_endpoint(Ep(f'decoy{j}', 900 + j, log), None)
-        eps = [mk_ep(f'ep{e}', d) for e, d in c['eps']]
+        eps = [mk_ep(e, d) for e, d in c['eps']]
         ports = [None if x is None else dev(x) for x in c['ports']]
         try:
             if not c['eps'] and not c['ports_arg']:
@@ -605,12 +635,13 @@ def run_dispatch(c, fails, hist):
             return lines
         allp = [(eps[j], ports[j] if ports else None) for j in range(len(eps))]
         for e, d, x in c['adds']:
-            ep = mk_ep(f'ep{e}', d)
+            ep = mk_ep(e, d)
             hub.add_endpoint(ep, dev(x))
             allp.append((ep, dev(x)))
         hist['hub:' + ('noports' if not c['ports'] else 'ports')] += 1
-        if len(set(e.element_id for e, _ in allp)) < len(allp):
+        if len(set(e.hid for e, _ in allp)) < len(allp):
             hist['hub:shared-element-id'] += 1
+        hist['hub:element-ids:' + idtype] += 1
         for ep, pt in allp:
             if pt is not None:
                 lines.append(f'W {pt.dev} {getattr(pt.out, "dev", "?")}')
@@ -620,11 +651,14 @@ def run_dispatch(c, fails, hist):
                 fails.add('Hub: endpoint.out is not the hub', 'hub-wiring', c, lines[-3:])
 
         def chk(p, entries, exc):
-            exp = collections.Counter((pt.dev if pt is not None else ep.dev) for ep, pt in allp if ep.element_id != p.src)
+            # "every attached endpoint except its sender": the sender is the endpoint whose id - the value the harness gave it, of whatever
+            # type - equals the value the harness put into packet.src
+            sender = ident(idtype, c['pkts'][p.packet_id][2])
+            exp = collections.Counter((pt.dev if pt is not None else ep.dev) for ep, pt in allp if ep.hid != sender)
             got = collections.Counter(dv for dv, _ in entries)
             if exc or got != exp:
-                fails.add(f'Hub: packet from {p.src} was repeated to {sorted(got.elements())}{" raising " + exc if exc else ""}, '
-                          f'every endpoint but the sender is {sorted(exp.elements())}' + fnote, 'hub-rule' + ('' if c['ports'] else ':no-ports'),
+                fails.add(f'Hub: packet from {p.src!r} was repeated to {sorted(got.elements())}{" raising " + exc if exc else ""}, '
+                          f'every endpoint but the sender is {sorted(exp.elements())} (element ids are {idtype} values)' + fnote, 'hub-rule' + ('' if c['ports'] else ':no-ports'),
                           c, lines[-8:])
         put_all(hub, chk)
     elif k in ('splitter', 'nsplitter'):
@@ -796,7 +830,25 @@ def make_flows(c):
     ft = fat_tree(c['k'])
     if c.get('origin') == 'generate_flows':
         random.seed(c['rseed'])
-        flows = ft.generate_flows(c['nflows'])
+        rk = c.get('rekey')
+        if rk:
+            # several batches from generate_flows, renumbered into disjoint id ranges (`fid` is a plain dataclass field) and collected in
+            # ONE dict whose keys are not the flow ids: dict(enumerate(...)), names, or keys that are other flows' ids.  A flow's id is
+            # `flow.fid` - that is what its packets carry and what the tables must be entered under.
+            every = []
+            for n, base in zip(rk['batches'], rk['bases']):
+                for fl in ft.generate_flows(n).values():
+                    fl.fid = base + fl.fid
+                    every.append(fl)
+            if rk['keys'] == 'enumerate':
+                flows = dict(enumerate(every))
+            elif rk['keys'] == 'names':
+                flows = {f'flow-{fl.fid}': fl for fl in every}
+            else:
+                ids = [fl.fid for fl in every]
+                flows = {ids[(j + 1) % len(ids)]: fl for j, fl in enumerate(every)}      # every key is ANOTHER flow's id
+        else:
+            flows = ft.generate_flows(c['nflows'])
         c['flows'] = [[fl.fid, list(fl.path)] for fl in flows.values()]
         return flows
     flows = {}
@@ -886,8 +938,10 @@ def run_fattree(c, fails, hist):
         hosts = set(ft.hosts)
         dcache = {}
         fids = [fl.fid for fl in flows.values()]
-        if len(set(fids)) != len(fids) or any(f != fl.fid for f, fl in flows.items()):
+        if len(set(fids)) != len(fids) or (not c.get('rekey') and any(f != fl.fid for f, fl in flows.items())):
             fails.add('generate_flows: flow ids are not the distinct keys 0..n-1', 'fattree-flows', c, lines[:3])
+        if c.get('rekey'):
+            hist['fattree:flow-dict-keys-differ-from-fid:' + c['rekey']['keys']] += 1
         if gen_exc:
             fails.add(f'generate_fib raised {gen_exc} on flows from generate_flows', 'fattree-fib', c, lines[:3])
         for fl in flows.values():
@@ -944,6 +998,15 @@ def gen_fattree_cases(rng, ctx):
                 if k <= 8 and rng.random() < 0.5:
                     # a second FatTree(k) (other seed, other flow set) generates its FIB between this tree's generate_fib and the walks
                     cases[-1]['rival'] = {'rseed': rng.randrange(10 ** 9), 'nflows': rng.choice([1, 3, 10, 25]), 'tcp': rng.randint(0, 1)}
+            if k >= 4 and s < 3:
+                # the same tree, flow dicts whose keys are not the flows' ids (two renumbered batches in one dict)
+                n1, n2 = rng.choice([1, 3, 8, 20]), rng.choice([1, 2, 5, 12])
+                b1 = rng.choice([0, 0, 7, 100])
+                for tcp in (0, 1):
+                    cases.append({'kind': 'fattree', 'k': k, 'tcp': tcp, 'dump': 0, 'origin': 'generate_flows', 'rseed': rng.randrange(10 ** 9),
+                                  'nflows': n1 + n2, 'flows': [],
+                                  'rekey': {'batches': [n1, n2], 'bases': [b1, b1 + n1 + rng.choice([0, 5, 1000])],
+                                            'keys': rng.choice(['enumerate', 'enumerate', 'names', 'other-ids'])}})
     # constructor argument check
     for k in [0, -2, 1, 3, 7, rng.choice([9, 11, 13])]:
         cases.append({'kind': 'fattree', 'k': k, 'tcp': 0, 'dump': 0, 'origin': 'handmade', 'flows': []})
